@@ -514,7 +514,7 @@ func C15(c *core.Ctx) {
 		c.AddTLC(rr)
 		ops := allOps(rc.n)
 		var events []c15Event
-		states := 0
+		states, anonymous := 0, 0
 		_, err = core.ReadDump(dump+".dump", func(vars map[string]interface{}) error {
 			pre := absFromTLA(asMap(vars["proj"]))
 			states++
@@ -561,9 +561,25 @@ func C15(c *core.Ctx) {
 					}
 				}
 			}
-			for _, o := range sel {
+			for k, o := range sel {
 				ev, _ := c15Step(c, real, pre, o, rc.n)
 				events = append(events, ev)
+				// the same project built by hand with the services' Name fields left unset (the map key is the service's name):
+				// every operation that does not ask a service for its dependents
+				if (states+k)%3 == 0 && !(o.Op == "select" && o.Policy == "dependents") {
+					anon := buildProject(pre)
+					for name, sv := range anon.Services {
+						sv.Name = ""
+						anon.Services[name] = sv
+					}
+					for name, sv := range anon.DisabledServices {
+						sv.Name = ""
+						anon.DisabledServices[name] = sv
+					}
+					ev2, _ := c15Step(c, anon, pre, o, rc.n)
+					events = append(events, ev2)
+					anonymous++
+				}
 				c.Eval(fmt.Sprintf("%d|%+v|%+v", rc.n, pre, o), len(pre.Enabled) > 0 && (o.Op == "prune" || len(o.Names)+len(o.P) > 0))
 			}
 			return nil
@@ -578,7 +594,7 @@ func C15(c *core.Ctx) {
 		}
 		c15Report(c, events, bad, drift)
 		c.AddTraces(int64(len(events)))
-		c.Set(fmt.Sprintf("model_to_code_n%d", rc.n), map[string]interface{}{"reachable_abstract_projects": states, "real_transitions_judged_by_tlc": len(events), "violations": len(bad), "drift": len(drift)})
+		c.Set(fmt.Sprintf("model_to_code_n%d", rc.n), map[string]interface{}{"reachable_abstract_projects": states, "real_transitions_judged_by_tlc": len(events), "of_them_on_projects_without_name_fields": anonymous, "violations": len(bad), "drift": len(drift)})
 		c.Logf("N=%d: %d reachable projects, %d real transitions judged, %d violations, %d drift", rc.n, states, len(events), len(bad), len(drift))
 		if len(events) > 0 {
 			c.Sample(events[len(events)/3].rec())
